@@ -744,6 +744,148 @@ def _inl(rule):
     return run
 
 
+def _is_tuple_type(model, fi, e, _depth=0):
+    """Does expression e denote the type `tuple`?"""
+    if isinstance(e, ast.Name):
+        if e.id == 'tuple':
+            return True
+        if _depth > 3:
+            return False
+        d = model.param_default(fi, e.id)
+        if d is not None:
+            return _is_tuple_type(model, fi, d, _depth + 1)
+        defs = model.local_defs(fi, e.id)
+        if defs:
+            return all(isinstance(x, ast.AST) and
+                       _is_tuple_type(model, fi, x, _depth + 1)
+                       for x in defs)
+        vals = fi.module.globals.get(e.id) or []
+        return bool(vals) and all(_is_tuple_type(model, fi, v, _depth + 1)
+                                  for v in vals)
+    if isinstance(e, ast.Call) and isinstance(e.func, ast.Name) and \
+            e.func.id == 'type' and len(e.args) == 1 and \
+            isinstance(e.args[0], ast.Tuple):
+        return True
+    return False
+
+
+def _tuple_test_of(model, fi, test, subject):
+    """Is `test` (one conjunct) a test that `subject` is a tuple?"""
+    if isinstance(test, ast.Call) and isinstance(test.func, ast.Name) and \
+            test.func.id == 'isinstance' and len(test.args) == 2 and \
+            norm(test.args[0]) == subject:
+        return _is_tuple_type(model, fi, test.args[1])
+    if isinstance(test, ast.Compare) and len(test.ops) == 1 and \
+            isinstance(test.ops[0], (ast.Is, ast.Eq)):
+        a, b = test.left, test.comparators[0]
+        for x, y in ((a, b), (b, a)):
+            if not _is_tuple_type(model, fi, y):
+                continue
+            if isinstance(x, ast.Call) and isinstance(x.func, ast.Name) \
+                    and x.func.id == 'type' and len(x.args) == 1 and \
+                    norm(x.args[0]) == subject:
+                return True
+            if isinstance(x, ast.Name):
+                defs = model.local_defs(fi, x.id)
+                if defs and all(
+                        isinstance(d, ast.Call) and
+                        isinstance(d.func, ast.Name) and d.func.id == 'type'
+                        and len(d.args) == 1 and norm(d.args[0]) == subject
+                        for d in defs):
+                    return True
+    return False
+
+
+def _conjuncts(test):
+    if isinstance(test, ast.BoolOp) and isinstance(test.op, ast.And):
+        out = []
+        for v in test.values:
+            out += _conjuncts(v)
+        return out
+    return [test]
+
+
+def rule_pair_predicate(model):
+    r = RuleResult('C10.R7', 'an element is split into (key, item) only '
+                   'when it is a tuple of length 2: every length-2 test on '
+                   'an element is conjoined with a tuple type test (a '
+                   'two-element list or other sequence stays the item)')
+    n = 0
+    for fi in model.all_funcs():
+        if fi.module.short not in ('DT_In', 'DT_InSV'):
+            continue
+        for x in own_nodes(fi.node):
+            if isinstance(x, ast.Match):
+                for c in x.cases:
+                    p = c.pattern
+                    if isinstance(p, ast.MatchSequence) and \
+                            len(p.patterns) == 2 and not any(
+                                isinstance(q, ast.MatchStar)
+                                for q in p.patterns):
+                        n += 1
+                        subj = norm(x.subject)
+                        ok = c.guard is not None and any(
+                            _tuple_test_of(model, fi, t, subj)
+                            for t in _conjuncts(c.guard))
+                        r.instance(fi.where, f'case {norm(p)}',
+                                   'tuple' if ok else 'ANY SEQUENCE')
+                        if not ok:
+                            r.finding(fi.where, f'match {subj}: case '
+                                      f'{norm(p)}', 'a sequence pattern '
+                                      'matches every two-element sequence '
+                                      '(lists, ranges ...), not only '
+                                      '2-tuples: such an element is split '
+                                      'and sequence-item is no longer the '
+                                      'element', node=c.pattern, ctx=fi)
+                continue
+            if not (isinstance(x, ast.Compare) and len(x.ops) == 1 and
+                    isinstance(x.ops[0], ast.Eq) and
+                    isinstance(x.left, ast.Call) and
+                    isinstance(x.left.func, ast.Name) and
+                    x.left.func.id == 'len' and len(x.left.args) == 1 and
+                    isinstance(x.comparators[0], ast.Constant) and
+                    x.comparators[0].value == 2):
+                continue
+            subj_e = x.left.args[0]
+            if not isinstance(subj_e, ast.Name):
+                continue
+            defs = model.local_defs(fi, subj_e.id)
+            elem = any(
+                (isinstance(d, tuple) and d[0] == 'iter') or
+                isinstance(d, ast.Subscript) or
+                (isinstance(d, ast.Call) and 'getitem' in norm(d.func))
+                for d in defs)
+            if not elem:
+                continue
+            n += 1
+            subj = subj_e.id
+            tests = []
+            node = x
+            for anc in ancestors(x):
+                if isinstance(anc, ast.BoolOp) and \
+                        isinstance(anc.op, ast.And):
+                    tests += [v for v in anc.values if v is not node]
+                elif isinstance(anc, (ast.If, ast.IfExp)):
+                    if node is not anc.test and node in getattr(
+                            anc, 'body', []) or (
+                            isinstance(anc, ast.IfExp) and
+                            node is anc.body):
+                        tests += _conjuncts(anc.test)
+                elif isinstance(anc, (ast.FunctionDef, ast.Lambda)):
+                    break
+                node = anc
+            ok = any(_tuple_test_of(model, fi, t, subj) for t in tests)
+            r.instance(fi.where, x, 'tuple test conjoined' if ok
+                       else 'NO TUPLE TEST')
+            if not ok:
+                r.finding(fi.where, x, f'`{subj}` is treated as a (key, '
+                          'item) pair because it has length 2, without '
+                          'testing that it is a tuple', node=x, ctx=fi)
+    if n < 4:
+        raise AnalysisError(f'C10.R7: only {n} pair tests found (floor 4)')
+    return r
+
+
 def rule_own_namespace(model):
     r = RuleResult('C10.R6', 'the variable object dtml-in pushes answers a '
                    'key without a dash only when a non-empty prefix= alias '
@@ -755,7 +897,8 @@ def rule_own_namespace(model):
 
 RULES = [_inl(rule_index), _inl(rule_prefix), _inl(rule_providers),
          _inl(rule_empty),
-         _inl(rule_twins), rule_own_namespace]
+         _inl(rule_twins), rule_own_namespace,
+         rule_pair_predicate]
 EXPLANATION = (
     'Loop-bound agreement (linear forms) for index uses and first/last '
     'markers; store-site query for prefix-aware keys; provider table for '
